@@ -112,7 +112,7 @@ def run(ck: Check):
             if float(gh.abs().max()) == 0.0:
                 ck.disagree("gumbel-mode parameter gradient is identically zero", {"param": par, "mode": mode},
                             signature={"layer": "dense", "param": par, "mode": mode, "what": "grad-zero"})
-            if mode == "gumbel_hard" and par == "walsh" and float((gh - gs).abs().max()) > 1e-9:
+            if mode == "gumbel_hard" and par == "walsh" and not (float((gh - gs).abs().max()) <= 1e-9):
                 ck.disagree("gumbel_hard gradient differs from the gradient of the soft sample of the same draw", {"param": par},
                             signature={"layer": "dense", "param": par, "mode": mode, "what": "grad-ste"})
     # grad factor
@@ -145,7 +145,7 @@ def run(ck: Check):
             ck.case(case, nontrivial=True, kind="gradfactor")
             if not torch.equal(y1, y2):
                 ck.disagree("grad_factor changes the forward values", case, signature={"layer": name.split("-")[0], "what": "gf-forward"})
-            if float((g2 - f * g1).abs().max()) > 1e-12 * max(1.0, float(g1.abs().max())):
+            if not (float((g2 - f * g1).abs().max()) <= 1e-12 * max(1.0, float(g1.abs().max()))):
                 ratio = float((g2.abs().sum() / g1.abs().sum()))
                 ck.disagree("gradient flowing to the layer input is not multiplied by exactly the gradient factor", dict(case, observed_ratio=ratio),
                             signature={"layer": name.split("-")[0], "what": "gf-scale", "padded": "pad0" not in name and "conv" in name})
@@ -159,12 +159,12 @@ def run(ck: Check):
             h = xs * 1.0
             l.grad_factor = f
             tot, = torch.autograd.grad((l(h) * up).sum() + (h * cvec).sum(), [h])
-            if float((tot - (f * ga + cvec)).abs().max()) > 1e-10 * max(1.0, float(ga.abs().max())):
+            if not (float((tot - (f * ga + cvec)).abs().max()) <= 1e-10 * max(1.0, float(ga.abs().max()))):
                 ck.disagree("the gradient factor also scales gradient that reaches the input tensor through another consumer",
                             dict(case, situation="second consumer"), signature={"layer": name.split("-")[0], "what": "gf-other-consumer"})
             h = xs * 1.0
             tw, = torch.autograd.grad(((l(h) + l(h)) * up).sum(), [h])
-            if float((tw - 2 * f * ga).abs().max()) > 1e-10 * max(1.0, float(ga.abs().max())):
+            if not (float((tw - 2 * f * ga).abs().max()) <= 1e-10 * max(1.0, float(ga.abs().max()))):
                 ck.disagree("applying the module twice to one tensor does not scale each path by the factor once",
                             dict(case, situation="applied twice"), signature={"layer": name.split("-")[0], "what": "gf-twice"})
             ck.count("gradfactor_consumer_checks", 2)
